@@ -140,6 +140,16 @@ def epLine (s : St) (e : Nat) : String :=
   let tup := (E.tuples.toArray.qsort (· < ·)).toList
   s!"{e}:f{boolStr E.failed}d{boolStr E.dead}c{E.connCloses}x{x}s{boolStr E.hasSent}r{boolStr E.hasReply}n{E.natTimeout / 1000000}t{joinNat tup}"
 
+/-- digest without times (for replays that run on the real clock) -/
+def digestNoTime (s : St) : String :=
+  let pool := (List.range nkeys).filterMap fun k => (s.pool k).map fun e => s!"{k}:{e}"
+  let p := if pool.isEmpty then "-" else ",".intercalate pool
+  let eps := (List.range s.neps).map fun e =>
+    let E := s.eps e
+    s!"{e}:f{boolStr E.failed}d{boolStr E.dead}c{E.connCloses}s{boolStr E.hasSent}r{boolStr E.hasReply}"
+  let e := if eps.isEmpty then "-" else " ".intercalate eps
+  s!"pool={p} dials={s.dials} eps={e}"
+
 def digest (s : St) : String :=
   let pool := (List.range nkeys).filterMap fun k => (s.pool k).map fun e => s!"{k}:{e}"
   let p := if pool.isEmpty then "-" else ",".intercalate pool
@@ -315,6 +325,7 @@ def handleEp (st : DrvSt) (toks : List String) : DrvSt × String :=
   match toks with
   | ["reset"] => upd EP.init "ok"
   | ["st"] => (st, EpDrv.digest s)
+  | ["stx"] => (st, EpDrv.digestNoTime s)
   | ["goc", k, sym, nat, owner, drain, d, out] =>
     match k.toNat?, boolTok? sym, nat.toNat?, EpDrv.optTok? owner, EpDrv.optTok? drain, d.toNat?,
       (match out with | "ok" => some EP.DialOutcome.ok | "gen" => some .failGeneric | "noalive" => some .failNoAlive | _ => none) with
